@@ -40,6 +40,24 @@ TEXTS = {
                   ('kv', 'kx', 'x')]),
 }
 
+# texts whose section names (and one key) are symbolic: a name may coincide with another section's
+# name or with a type name, so "the first child in file order whose name or type matches" decides
+N = lambda i: ['w', 2, i]      # noqa
+TEXTS['U2'] = ('S2', [('kv', 'kt', '5'),
+                      ('sec', 'ta', N('n1'), [('kv', 'ka', '1'), ('kv', 'kb', 'x')]),
+                      ('sec', 'tb', N('n2'), [('kv', 'ka', '2'), ('kv', N('k1'), 'y')]),
+                      ('sec', 'ta', N('n3'), [('kv', 'ka', '3')])])
+TEXTS['U4'] = ('S4', [('sec', 'ta', N('n1'), [('sec', 'tb', N('n2'), [('sec', 'tc', N('n3'), [('kv', 'kc', '1')]),
+                                                                       ('sec', 'tc', N('n4'), []),
+                                                                       ('kv', 'kb', 'v')]),
+                                              ('kv', 'ka', 'w')])])
+
+SPECS_U = [
+    ('U2', [['ta/ka=', V1]]), ('U2', [['tb/ka=', V1]]), ('U2', [[W2, '/ka=', V1]]),
+    ('U2', [['ta/kb=', V1], ['tb/kc=', V1]]), ('U2', [['tb/', W2, '=', V1]]),
+    ('U4', [['ta/tb/tc/kc=', V1]]), ('U4', [[W2, '/', W2, '/kb=', V1]]), ('U4', [['ta/tb/', W2, '/kc=', V1]]),
+]
+
 SPECS_Q = [
     ('T2', [[W2, '=', V2]]),
     ('T2', [[W2, '/', W2, '=', V1]]),
@@ -81,6 +99,23 @@ def render(struct, ind=''):
             out += render(it[3], ind + '  ')
             out.append(ind + '</' + it[1] + '>')
     return out
+
+
+def _holes(struct):
+    out = []
+    for it in struct:
+        for x in it[1:3]:
+            if isinstance(x, list):
+                out.append(x)
+        if it[0] == 'sec':
+            out += _holes(it[3])
+    return out
+
+
+def _inst(struct, inp):
+    def v(x):
+        return inp['h_' + x[2]] if isinstance(x, list) else x
+    return [(it[0], v(it[1]), v(it[2])) + ((_inst(it[3], inp),) if it[0] == 'sec' else ()) for it in struct]
 
 
 class Refuse(Exception):
@@ -193,7 +228,8 @@ class C14(P.TextMixin, Harness):
     functions = ('ZConfig.cmdline.', 'ZConfig.loader._get_config_loader', 'ZConfig.matcher.',
                  'ZConfig.loader.', 'ZConfig.cfgparser.')
     assumptions = (
-        'texts T2, T4, T6 (concrete, accepted, with sections up to depth 3) of schemas S2, S4, S6; '
+        'texts T2, T4, T6, T7 (concrete) and U2, U4 (section names and a key symbolic, so names may coincide with '
+        'each other or with type names), sections up to depth 3, schemas S2, S4, S6; '
         'override lists of 1-2 (thorough: up to 4) specifiers from the templates in vf/harness/c14.py',
         'override values with leading or trailing whitespace cannot be expressed as a text line and are '
         'excluded (any outcome accepted)',
@@ -211,8 +247,11 @@ class C14(P.TextMixin, Harness):
         return 170 if tier == 'quick' else 1200
 
     def units(self, tier):
-        return [{'text': t, 'files': [['specs', specs]]}
-                for t, specs in (SPECS_Q if tier == 'quick' else SPECS_T)]
+        us = [{'text': t, 'files': [['specs', specs]]}
+              for t, specs in (SPECS_Q if tier == 'quick' else SPECS_T)]
+        for t, specs in SPECS_U:
+            us.append({'text': t, 'files': [['specs', specs], ['names', [[h] for h in _holes(TEXTS[t][1])]]]})
+        return us
 
     def inputs(self, eng, unit):
         return self.text_inputs(eng, unit)
@@ -229,12 +268,14 @@ class C14(P.TextMixin, Harness):
 
     def observe(self, unit, inp):
         sid, struct = TEXTS[unit['text']]
+        struct = _inst(struct, inp)
         with common.env_scope(common.all_concrete(inp), {}):
             r = P.run_load(XML[sid], render(struct), overrides=self.specs(unit, inp), url=P.MAIN)
         return self._out(r)
 
     def expect(self, unit, inp, real):
         sid, struct = TEXTS[unit['text']]
+        struct = _inst(struct, inp)
         try:
             edited = edit(struct, VIEWS[sid], self.specs(unit, inp))
         except Refuse:
